@@ -197,11 +197,32 @@ HasInitialProduct ==
     IF "prod" \in DOMAIN par THEN par["prod"][1] > 0
     ELSE IF "p" \in DOMAIN par THEN par["p"][1] > 0 ELSE FALSE
 Regime == SlopeSign(InitialSlope(fn, par)[1])
+(* a <= b for non-negative rationals without forming cross products (they overflow 32 bits for  *)
+(* 55.4 against 1e-9): compare integer parts, then the reciprocals of the fractional parts        *)
+RECURSIVE QLeS(_, _)
+QLeS(a, b) ==
+    LET fa == a[1] \div a[2]  fb == b[1] \div b[2]  ra == a[1] % a[2]  rb == b[1] % b[2] IN
+    IF fa # fb THEN fa < fb
+    ELSE IF ra = 0 THEN TRUE
+    ELSE IF rb = 0 THEN FALSE
+    ELSE QLeS(<<b[2], rb>>, <<a[2], ra>>)
 (* the size of the problem: the largest initial / feed concentration among the arguments (rate  *)
 (* constants and times are not concentrations).  Absolute tolerances are relative to it.         *)
 ConcArgs(f) == LET m == Mech(f) IN { m.c0[s] : s \in DOMAIN m.c0 } \cup (IF m.flow THEN { m.feed[s] : s \in DOMAIN m.feed } ELSE {})
 Scale == LET S == { par[k] : k \in ConcArgs(fn) \cap DOMAIN par }
-         IN  CHOOSE m \in S : \A x \in S : QLe(x, m)
+         IN  CHOOSE m \in S : \A x \in S : QLeS(x, m)
+(* the size of each RETURNED concentration: a batch product can at most reach its initial value *)
+(* plus what the limiting (not held) reactant can still form; a batch reactant starts at its     *)
+(* maximum; stirred-tank concentrations are bounded by the problem's Scale.  Values are judged    *)
+(* relative to this size, so a trace product next to a reactant in huge excess still has to be    *)
+(* right to the case's relative tolerance.                                                        *)
+QMinSet(S) == CHOOSE m \in S : \A x \in S : QLeS(m, x)
+CompScale(i) ==
+    LET s == M.ret[i]  r1 == M.rxns[1] IN
+    IF M.flow THEN Scale
+    ELSE IF \E j \in 1..Len(r1.reac) : r1.reac[j][1] = s THEN par[M.c0[s]]
+    ELSE LET lim == { par[M.c0[r1.reac[j][1]]] : j \in { j2 \in 1..Len(r1.reac) : r1.reac[j2][1] \notin M.held } }
+         IN  QAdd(par[M.c0[s]], QMinSet(lim))
 Class == fn \o (IF HasInitialProduct THEN ":p+" ELSE ":p0") \o ":" \o Regime \o ":" \o backend
           \o (IF dt = QZero THEN ":t0" ELSE "")
 (* CALL FORMS.  Different spellings of one call denote the same value: arguments by position or *)
@@ -232,6 +253,7 @@ CaseRec ==
                 \* sides (40-digit arithmetic), initial value likewise; float backends against the
                 \* 40-digit value
                 rtol_residual |-> "1e-25", rtol_init |-> "1e-25", rtol_backend |-> "1e-9", scale |-> Scale,
+                comp_scale |-> [i \in 1..Len(M.ret) |-> CompScale(i)],
                 raises |-> FALSE ] ]
 Emit == Done => PrintT(<<"CASE", ToJson(CaseRec)>>)
 =============================================================================
